@@ -6,6 +6,7 @@ import (
 	"net"
 	"runtime"
 	"strings"
+	"sync"
 	"time"
 
 	"gitlab.com/yawning/obfs4.git/transports/base"
@@ -35,7 +36,7 @@ type pendingRead struct {
 // connect dials through cf. For a UniformDH flight the reference server answers (padding
 // `padLen`, whole response in one segment); a ticket flight needs no answer. The caller tells
 // the driver which master secret the session runs under (`sess.new`).
-func (e *env) connect(cf base.ClientFactory, addr string, padLen int) (s *session, flight []byte, hour int64, err error) {
+func (e *env) connect(c Case, cf base.ClientFactory, addr string, padLen int) (s *session, flight []byte, hour int64, err error) {
 	for try := 0; try < 3; try++ {
 		hour = curHour()
 		dl := startDial(cf, e.ca, addr)
@@ -54,6 +55,7 @@ func (e *env) connect(cf base.ClientFactory, addr string, padLen int) (s *sessio
 				continue
 			}
 			s.mode, s.conn = "ticket", dl.conn
+			e.dialDone(c, dl.sc, true)
 			return s, flight, hour, nil
 		}
 		resp := e.serverResp(e.kB, e.padFor(padLen), hour)
@@ -76,6 +78,7 @@ func (e *env) connect(cf base.ClientFactory, addr string, padLen int) (s *sessio
 			return nil, flight, hour, dl.err
 		}
 		s.mode, s.conn = "dh", dl.conn
+		e.dialDone(c, dl.sc, false)
 		return s, flight, hour, nil
 	}
 	return nil, nil, 0, fmt.Errorf("hour changed three times in a row")
@@ -180,7 +183,7 @@ func (e *env) dataCases() {
 func (e *env) dataCase(c Case) {
 	rng := vlib.NewRng(e.seed*977 + c.Sub*131 + 3)
 	addr := fmt.Sprintf("10.1.%d.%d:443", c.Sub/250, c.Sub%250)
-	s, _, _, err := e.connect(e.cf, addr, vlib.Pick(rng, []int{0, 5, 700}))
+	s, _, _, err := e.connect(c, e.cf, addr, vlib.Pick(rng, []int{0, 5, 700}))
 	if err != nil {
 		e.r.Violate("handshake-fails", "impl-oracle", "plain UniformDH handshake failed: "+err.Error(), c)
 		return
@@ -417,6 +420,213 @@ func sizeClass(n int) string {
 	}
 }
 
+// deadlineState replays the conn's event log: which halves of the deadline are armed at the end
+// (SetDeadline sets both halves; the zero time clears).
+func deadlineState(ev []vlib.ConnEvent) (rd, wr time.Duration) {
+	for _, x := range ev {
+		switch x.Kind {
+		case "deadline":
+			rd, wr = x.Off, x.Off
+		case "rdeadline":
+			rd = x.Off
+		case "wdeadline":
+			wr = x.Off
+		}
+	}
+	return
+}
+
+// dialDone is called after EVERY successful Dial (UniformDH and ticket handshake).
+// S: Dial has returned a usable connection, so no half of the handshake deadline may still be armed
+// (a conn that honours deadlines would fail every Read/Write 60 s later); and the timeout was armed
+// before the first write. C: the sequence of deadline operations and writes is the model's dialTrace.
+func (e *env) dialDone(c Case, sc *vlib.ScriptConn, ticket bool) {
+	ev := sc.EventsCopy()
+	kind := "uniformdh"
+	if ticket {
+		kind = "ticket"
+	}
+	rd, wr := deadlineState(ev)
+	if rd != 0 || wr != 0 {
+		half := "read and write"
+		if rd == 0 {
+			half = "write"
+		} else if wr == 0 {
+			half = "read"
+		}
+		e.r.Violate("deadline-left-armed-after-handshake", "impl-oracle",
+			fmt.Sprintf("%s handshake: Dial succeeded but the %s deadline of the underlying conn is still armed (read +%.0fs, write +%.0fs): the session dies when the handshake timeout expires", kind, half, rd.Seconds(), wr.Seconds()), c)
+		e.r.Count("deadline_after_dial", kind+"/armed")
+		return
+	}
+	e.r.Count("deadline_after_dial", kind+"/clear")
+	var trace []string
+	for _, x := range ev {
+		switch x.Kind {
+		case "deadline", "rdeadline", "wdeadline":
+			if x.Off == 0 {
+				trace = append(trace, "clear")
+			} else {
+				trace = append(trace, "arm")
+			}
+		case "write":
+			trace = append(trace, "write")
+		}
+	}
+	if len(trace) == 0 || trace[0] != "arm" {
+		e.r.Violate("handshake-without-timeout", "impl-oracle", fmt.Sprintf("%s handshake: the first operation on the conn is not the arming of the handshake timeout: %v", kind, trace), c)
+		return
+	}
+	t := "0"
+	if ticket {
+		t = "1"
+	}
+	// the model's trace depends on the handshake kind only: asked once per kind
+	e.rmu.Lock()
+	want, ok := e.traceC[t]
+	e.rmu.Unlock()
+	if !ok {
+		rep := e.call("dial.trace %s 0", t)
+		want = rep[1]
+		e.rmu.Lock()
+		if e.traceC == nil {
+			e.traceC = map[string]string{}
+		}
+		e.traceC[t] = want
+		e.rmu.Unlock()
+	}
+	if got := strings.Join(trace, ","); want != got {
+		e.r.Violate("model-impl-disagree-dial-trace", "correspondence", fmt.Sprintf("%s handshake: conn operations %s, model %s", kind, got, want), c)
+	}
+}
+
+// ---------------------------------------------------------------- reseeding of the padding sampler under concurrency
+
+func (e *env) reseedCases() {
+	n := e.r.Scale(4, 40)
+	for i := 0; i < n; i++ {
+		e.reseedCase(Case{Kind: "reseed", Seed: e.seed, Sub: uint64(i)})
+	}
+}
+
+// reseedCase: the reference server streams many PRNG-seed packets (different seeds, hence length
+// tables of different sizes) which one goroutine's Read processes, while a second goroutine does
+// small Writes on the same connection (each samples the distribution the reader is resetting).
+// S: no panic in either goroutine, no error, every Write is one well-formed burst that the reference
+// server decodes to exactly the bytes written, the reader ends with exactly the payload sent.
+// C: every burst is what the writer model produces for some sampled length.
+func (e *env) reseedCase(c Case) {
+	rng := vlib.NewRng(e.seed*4099 + c.Sub*17 + 3)
+	s, _, _, err := e.connect(c, e.cf, fmt.Sprintf("10.6.0.%d:443", c.Sub%250), 0)
+	if err != nil {
+		e.r.Violate("handshake-fails", "impl-oracle", "plain UniformDH handshake failed: "+err.Error(), c)
+		return
+	}
+	defer s.close()
+	s.id = "reseed"
+	e.call("sess.new %s %s", s.id, vlib.Hex(e.dhSeed))
+	nseeds := rng.Range(150, 300)
+	var wire []byte
+	for i := 0; i < nseeds; i++ {
+		wire = append(wire, e.srvSend(s.id, spkt{flagSeed, rng.Bytes(32), int(rng.Intn(8))})...)
+	}
+	final := []byte("reseed-done")
+	last := e.srvSend(s.id, spkt{flagData, final, 0})
+	nwrites := rng.Range(150, 300)
+	datas := make([][]byte, nwrites)
+	for i := range datas {
+		datas[i] = rng.Bytes(rng.Range(0, 40))
+	}
+	// reader: one Read that works through the seed packets as they arrive and returns with the final payload
+	rbuf := make([]byte, 100)
+	var rn int
+	var rerr error
+	rop := s.sc.Start(func() { rn, rerr = s.conn.Read(rbuf) })
+	// writer
+	type wres struct {
+		n   int
+		err error
+		pan interface{}
+	}
+	res := make([]wres, nwrites)
+	bursts := make([][]byte, nwrites)
+	var tapMu sync.Mutex
+	var cur []byte
+	s.sc.OnWrite = func(b []byte) {
+		tapMu.Lock()
+		cur = append(cur, b...)
+		tapMu.Unlock()
+	}
+	done := make(chan struct{})
+	go func() {
+		defer close(done)
+		for i, d := range datas {
+			func() {
+				defer func() { res[i].pan = recover() }()
+				res[i].n, res[i].err = s.conn.Write(d)
+			}()
+			tapMu.Lock()
+			bursts[i], cur = cur, nil
+			tapMu.Unlock()
+			if res[i].pan != nil {
+				return
+			}
+		}
+	}()
+	// the seed packets arrive in segments while the writer runs
+	for _, ch := range chunkAt(wire, []int{len(wire) / 4, len(wire) / 4, len(wire) / 4}) {
+		s.sc.Feed(ch)
+		runtime.Gosched()
+	}
+	<-done
+	s.sc.Feed(last)
+	s.sc.Wait(rop)
+	s.sc.OnWrite = nil
+	s.sc.TakeWrites()
+	e.r.Case(fmt.Sprintf("reseed/%d/%d/%d", c.Sub, nseeds, nwrites), true)
+	e.r.Count("kind", "reseed")
+	if rop.Panic != nil {
+		e.r.Violate("reader-panic", "impl-oracle", fmt.Sprintf("Read panicked while %d seed packets were processed concurrently with Writes: %v", nseeds, rop.Panic), c)
+		return
+	}
+	for i := range res {
+		if res[i].pan != nil {
+			e.r.Violate("writer-panic", "impl-oracle",
+				fmt.Sprintf("Write #%d (%d bytes) panicked while the reader was reseeding the padding sampler (%d seed packets in flight): %v", i, len(datas[i]), nseeds, res[i].pan), c)
+			return
+		}
+		if res[i].err != nil || res[i].n != len(datas[i]) {
+			e.r.Violate("client-write-fails", "impl-oracle", fmt.Sprintf("Write #%d (%d bytes) = %d, %v", i, len(datas[i]), res[i].n, res[i].err), c)
+			return
+		}
+	}
+	if !rop.Done() || rerr != nil || string(rbuf[:rn]) != string(final) {
+		e.r.Violate("stream-not-exact-server-to-client", "impl-oracle",
+			fmt.Sprintf("%d seed packets then %q: Read returned %q, %v (finished=%v)", nseeds, final, rbuf[:rn], rerr, rop.Done()), c)
+		return
+	}
+	for i, b := range bursts {
+		rep := e.call("srv.feed %s %s", s.id, vlib.Hex(b))
+		if rep[0] != "ok" || !bytes.Equal(vlib.UnHex(rep[1]), datas[i]) {
+			e.r.Violate("reference-server-rejects-client-packets", "impl-oracle",
+				fmt.Sprintf("Write #%d (%d bytes) under concurrent reseeding produced %d wire bytes the reference server does not decode to the bytes written (%v)", i, len(datas[i]), len(b), rep[0]), c)
+			return
+		}
+		if len(b) < pktOvh || len(b) > 3*mss {
+			e.r.Violate("burst-length-out-of-range", "impl-oracle", fmt.Sprintf("Write #%d produced a burst of %d bytes", i, len(b)), c)
+			return
+		}
+		w := e.call("cli.write %s %s %s", s.id, vlib.Hex(datas[i]), vlib.Hex(b))
+		e.r.Validated(1)
+		if w[0] != "ok" {
+			e.r.Violate("model-impl-disagree-writer", "correspondence",
+				fmt.Sprintf("Write #%d (%d bytes) under concurrent reseeding: %d wire bytes that the writer model reproduces for no sampled length in [21,1448]", i, len(datas[i]), len(b)), c)
+			return
+		}
+	}
+	e.r.Count("reseed_seed_packets", bucket(nseeds))
+}
+
 // ---------------------------------------------------------------- malformed packet streams (C10)
 
 func (e *env) garbageCases() {
@@ -471,7 +681,7 @@ func (e *env) garbageCase(c Case) {
 		}
 	}
 	chunks := cutReads(chunkAt(stream, sizes), mss)
-	s, _, _, err := e.connect(e.cf, "10.3.0.1:443", 0)
+	s, _, _, err := e.connect(c, e.cf, "10.3.0.1:443", 0)
 	if err != nil {
 		e.r.Violate("handshake-fails", "impl-oracle", "plain UniformDH handshake failed: "+err.Error(), c)
 		return
@@ -604,7 +814,7 @@ func (e *env) flipCase(c Case, pre *flipPre) {
 	}
 	chunks := cutReads(chunkAt(stream, sizes), mss)
 	addr := "10.2.0.1:443"
-	s, _, _, err := e.connect(e.cf, addr, 0)
+	s, _, _, err := e.connect(c, e.cf, addr, 0)
 	if err != nil {
 		e.r.Violate("handshake-fails", "impl-oracle", "plain UniformDH handshake failed: "+err.Error(), c)
 		return
@@ -738,7 +948,7 @@ func (e *env) flipMixCase(c Case) {
 	chunks := cutReads(chunkAt(stream, sizes), mss)
 	// a fresh bridge address per case: ticket packets of the burst must not turn a later
 	// handshake of this section into a ticket handshake
-	s, _, _, err := e.connect(e.cf, fmt.Sprintf("10.4.%d.%d:443", c.Sub/250, c.Sub%250), 0)
+	s, _, _, err := e.connect(c, e.cf, fmt.Sprintf("10.4.%d.%d:443", c.Sub/250, c.Sub%250), 0)
 	if err != nil {
 		e.r.Violate("handshake-fails", "impl-oracle", "plain UniformDH handshake failed: "+err.Error(), c)
 		return
